@@ -44,8 +44,8 @@ def main():
     if args and args[0] == "--round2":
         prefix, tag = "/tmp/seed2_", "r2-"
         args = args[1:]
-    elif args and args[0] == "--round3":
-        prefix, tag = "/tmp/seed3_", "r3-"
+    elif args and args[0].startswith("--round") and args[0][7:].isdigit():
+        prefix, tag = "/tmp/seed%s_" % args[0][7:], "r%s-" % args[0][7:]
         args = args[1:]
     ids = args or ["C%02d" % i for i in range(1, 21)]
     os.makedirs(SEEDED, exist_ok=True)
